@@ -71,7 +71,10 @@ theorem quadratic_mean_perm (xs ys : List ℝ) (h : xs.Perm ys) :
 
 /-! ### harmonic mean -/
 
-/-- `harmonic_mean` on data without negative entries, in closed form (used below) -/
+/-- `harmonic_mean` on data without negative entries, in closed form (used below).  The code adds
+    `1 / |x|`; the entries that get past the `x < 0` early return satisfy `|x| = x`, so the
+    textbook `n / Σ (1/x)` is what is computed (a zero entry contributes `1/0 = 0` over ℝ on both
+    sides) -/
 theorem harmonic_mean_eq_of_nonneg (xs : List ℝ) (h : xs ≠ []) (hnn : ∀ x ∈ xs, ¬ x < 0) :
     IterStatistics.harmonic_mean xs = Spec.Stats.harmonicMean xs := by
   have e := harmonic_loop xs 0 0 hnn
